@@ -400,6 +400,18 @@ func (self *Server) handle(stream *Stream) {
 		break
 	}
 
+	if self.slock.state != STATE_LEADER {
+		switch willProtocol := serverProtocol.(type) {
+		case *BinaryServerProtocol:
+			if willProtocol.willCommands != nil {
+				serverProtocol = NewTransparencyBinaryServerProtocol(self.slock, stream, willProtocol)
+			}
+		case *TextServerProtocol:
+			if willProtocol.willCommands != nil {
+				serverProtocol = NewTransparencyTextServerProtocol(self.slock, stream, willProtocol)
+			}
+		}
+	}
 	err = serverProtocol.Close()
 	if err != nil {
 		self.slock.Log().Errorf("Server protocol connection close error %v", err)
